@@ -9,9 +9,9 @@ CLAIMED = {
    ref="6 C06"),
 }
 CLAIMED["C09"]=dict(
-   technique="property-based testing / fuzzing of the front end: proptest-generated text (random UTF-8, token soup, token-level mutants of every .glu file in the repository) through parse_partial_expr and typecheck_str in disposable worker processes; oracle = returns + every error span inside its file on character boundaries + errors render",
-   text="Exploration: 20k (quick) to 1M (thorough) generated inputs <= 4 KiB plus a hand list and the whole corpus; process death, caught panics, ill-formed spans and unrenderable errors are violations; three recorded known findings (checker ICEs on ill-kinded/ill-formed types) are matched by panic site + input feature so the search continues behind them.",
-   note="moderate nesting fixed as <= 64 generated levels on an 8 MiB stack; watchdog time-outs are inconclusive",
+   technique="property-based testing / fuzzing of the front end: proptest-generated text (random UTF-8, token soup, near-valid declaration soups, token-level mutants of every .glu file in the repository) through parse_partial_expr and typecheck_str in disposable worker processes; oracle = returns (no panic, no death, no hang by a CPU-time criterion) + every error span inside its file on character boundaries + errors render",
+   text="Exploration: 20k (quick) to 1M (thorough) generated inputs <= 4 KiB plus a hand list and the whole corpus; 4/14 of the generated inputs are near-valid declaration soups (cyclic / divergent / ill-kinded aliases, repeated parameters, derive and malformed attributes, annotated bindings, projections, self-imports, number-like lexemes over a 4-name pool). Process death, caught panics, hangs (40 CPU seconds or 3 GiB in one front-end call), ill-formed spans and unrenderable errors are violations; four recorded known findings (checker ICEs on ill-kinded/ill-formed types, a panic inside the gluon-salsa dependency on a self-import) are matched by panic site + input feature so the search continues behind them. Found and fixed this way: layout lookahead hang, alias expansion hang, derive on empty records, holes in type definitions.",
+   note="moderate nesting fixed as <= 64 generated levels on an 8 MiB stack; hang = 40 s of the worker's own CPU time (or 3 GiB resident) in one call on <= 4 KiB; a wall-clock time-out without that much CPU is inconclusive",
    ref="6 C09")
 CLAIMED["C01"]=dict(
    technique="property-based testing against a reference interpreter: exhaustive enumeration of small well-typed terms + proptest/tape-driven type-directed program generator, independent big-step evaluator as oracle, values read back guided by their type",
@@ -30,8 +30,8 @@ CLAIMED["C02"]=dict(
    ref="6 C02")
 CLAIMED["C05"]=dict(
    technique="property-based testing with fault-style GC schedules: generated allocating programs run with a collection forced at every k-th allocation check (hook), swept blocks poisoned and quarantined, differential against the unstressed run, plus a Trace-driven reachability walk (no swept object, no foreign heap) and a heap-size comparison of repeated runs",
-   text="Exploration: 12k (quick) / 200k (thorough) (program, k) points; a fifth put the program into a module-level lazy value in the global heap forced from a stressed child thread and re-forced after the child is gone. Found and fixed: forced module-level lazies were freed by the next collection.",
-   note="placements of collections are those reachable with periods {1,2,5,13} (quick) / {1,2,3,5,8,13,50}; collections triggered by concurrent OS threads are C14's; references in the global heap are not generated (need run_io at module load)",
+   text="Exploration: 12k (quick) / 200k (thorough) (program, k) points; an eighth are channel / reference operation sequences (C17's language) whose payloads are strings built at run time, with producer-ahead-of-consumer traffic so that a queue slot or a cell is the only owner of a fresh heap value while collections run; a fifth of the rest put the program into a module-level lazy value in the global heap forced from a stressed child thread and re-forced after the child is gone. Found and fixed: forced module-level lazies were freed by the next collection.",
+   note="placements of collections are those reachable with periods {1,2,5,13} (quick) / {1,2,3,5,8,13,50}; collections triggered by concurrent OS threads are C14's; references in the global heap are not generated (need run_io at module load); the channel / reference cases compare the stressed with the unstressed log (agreement with the sequential model is C17's)",
    ref="6 C05")
 CLAIMED["C12"]=dict(
    technique="round-trip / differential property-based testing: generated programs compiled to bytecode (serde_json) and run from it in the same VM, a fresh VM, via load_bytecode, and in a VM lacking the imports; generated corruptions (truncation, string edit, key deletion) of the serialised form",
@@ -45,7 +45,7 @@ CLAIMED["C16"]=dict(
    ref="6 C16")
 CLAIMED["C07"]=dict(
    technique="grid enumeration + property-based testing of resource limits: parametrised recursion/allocation shapes x depth x stack limit x memory limit on child threads, with hook counters for peak stack and allocations above the limit; metamorphic relation for tail calls (n = 50 vs n large); interrupt cases driven from a second OS thread",
-   text="Exploration: the full grid of 14 shapes x N x 5 stack limits x up to 5 memory limits plus generated points; outcome must be the expected value or the configured limit's failure, no allocation may leave a heap above its limit, tail shapes keep their peak stack, the worker's 8 MiB native stack survives, interrupts return Interrupted within 2 s.",
+   text="Exploration: the full grid of 14 shapes x N x 5 stack limits x up to 5 memory limits plus 3k (quick) / 60k (thorough) generated points, 2/5 of them loops whose recursive call sits under 1-4 nested generated tail contexts (if branches, match arms over Bool / tuple / Option, let, let-function, tuple- and record-pattern let bodies, a discarded binding, the right operand of ||, && and || then &&) spread over 1-3 mutually recursive functions; outcome must be the expected value or the configured limit's failure, no allocation may leave a heap above its limit, tail shapes keep their peak stack, the worker's 8 MiB native stack survives, interrupts return Interrupted within 2 s.",
    note="one recorded known finding: the out-of-memory error message itself is allocated past the limit; the 2 s interrupt bound is the only wall-clock criterion",
    ref="6 C07")
 CLAIMED["C13"]=dict(
@@ -60,8 +60,8 @@ CLAIMED["C15"]=dict(
    ref="6 C15")
 CLAIMED["C17"]=dict(
    technique="model-based property-based testing: operation sequences over channels, references, lazies and green threads compiled into one Gluon IO program each, observations logged through host functions and compared with an executable model; exhaustive enumeration of short sequences plus proptest-generated long ones; CPU-idle stall detection for hangs",
-   text="Exploration: all well-scoped main-thread sequences of length <= 4 (quick) / <= 6 (thorough) over a 9-operation alphabet in 4 scenarios, plus 6k / 200k generated sequences of up to 24 / 40 operations with up to 3 lazies (constant, failing, self-dependent) and 3 green threads. Found and fixed: forces of a failed lazy from another thread hung; resuming a thread that died re-entered the failed call.",
-   note="thunks never yield; only the main thread spawns/resumes; hang = no answer and no CPU consumed for 3 s in a workload without sleeps or I/O",
+   text="Exploration: all well-scoped main-thread sequences of length <= 4 (quick) / <= 6 (thorough) over a 9-operation alphabet in 4 scenarios, plus 6k / 200k generated sequences of up to 24 / 40 operations with up to 3 lazies (constant, failing, self-dependent) and 3 green threads. A third of the generated sequences carry run-time built strings instead of Ints through channels and references, most of those with channel-heavy traffic and under a GC schedule (collection at every k-th allocation check, swept blocks poisoned), so that delivery is also checked while the queue is the only owner of the message. Found and fixed: forces of a failed lazy from another thread hung; resuming a thread that died re-entered the failed call.",
+   note="thunks never yield; only the main thread spawns/resumes; GC schedules need the `verif` hooks H1/H2; hang = no answer and no CPU consumed for 3 s in a workload without sleeps or I/O",
    ref="6 C17")
 CLAIMED["C19"]=dict(
    technique="model-based property-based testing: generated programs over std.map / std.list / std.array / std.string / std.json / #[derive] with literal inputs; expected results computed by Rust reference models (BTreeMap, Vec/slice::sort, str, serde_json, structural equality, a Show renderer) at generation time",
